@@ -96,6 +96,33 @@ func buildEntryPoints() []entryPoint {
 			c := newExtP1Claims()
 			return nilIfErr(c, c.(*ExtP1Claims).UnmarshalCBOR(b))
 		}},
+		// claims-sets of the built-in types whose component container is
+		// ANOTHER instantiation of the library's generic container (what a
+		// derived profile with its own component type uses)
+		{"P2Claims{SwComponents[*foreignComp]}.UnmarshalCBOR", "cbor", func(b []byte) (any, error) {
+			c := &psatoken.P2Claims{SwComponents: &psatoken.SwComponents[*foreignComp]{}, CanonicalProfile: P2Name}
+			return nilIfErr(psatoken.IClaims(c), c.UnmarshalCBOR(b))
+		}},
+		{"P1Claims{SwComponents[*foreignComp]}.UnmarshalCBOR", "cbor", func(b []byte) (any, error) {
+			c := &psatoken.P1Claims{SwComponents: &psatoken.SwComponents[*foreignComp]{}, CanonicalProfile: P1Name}
+			return nilIfErr(psatoken.IClaims(c), c.UnmarshalCBOR(b))
+		}},
+		{"SwComponents[*foreignComp].UnmarshalCBOR", "cbor", func(b []byte) (any, error) {
+			c := &psatoken.SwComponents[*foreignComp]{}
+			return nilIfErr(c, c.UnmarshalCBOR(b))
+		}},
+		{"P2Claims{SwComponents[*foreignComp]}.UnmarshalJSON", "json", func(b []byte) (any, error) {
+			c := &psatoken.P2Claims{SwComponents: &psatoken.SwComponents[*foreignComp]{}, CanonicalProfile: P2Name}
+			return nilIfErr(psatoken.IClaims(c), c.UnmarshalJSON(b))
+		}},
+		{"P1Claims{SwComponents[*foreignComp]}.UnmarshalJSON", "json", func(b []byte) (any, error) {
+			c := &psatoken.P1Claims{SwComponents: &psatoken.SwComponents[*foreignComp]{}, CanonicalProfile: P1Name}
+			return nilIfErr(psatoken.IClaims(c), c.UnmarshalJSON(b))
+		}},
+		{"SwComponents[*foreignComp].UnmarshalJSON", "json", func(b []byte) (any, error) {
+			c := &psatoken.SwComponents[*foreignComp]{}
+			return nilIfErr(c, c.UnmarshalJSON(b))
+		}},
 		{"DecodeClaimsFromJSON", "json", func(b []byte) (any, error) { return nilIfErr(psatoken.DecodeClaimsFromJSON(b)) }},
 		{"DecodeAndValidateClaimsFromJSON", "json", func(b []byte) (any, error) {
 			return nilIfErr(psatoken.DecodeAndValidateClaimsFromJSON(b))
@@ -265,6 +292,20 @@ func exerciseResult(v any) {
 		_ = r.IsEmpty()
 		_, _ = r.MarshalCBOR()
 		_, _ = r.MarshalJSON()
+	case psatoken.ISwComponents:
+		_ = r.Validate()
+		if vs, err := r.Values(); err == nil {
+			for _, sc := range vs {
+				exerciseComponent(sc)
+			}
+		}
+		_ = r.IsEmpty()
+		if m, ok := v.(interface{ MarshalCBOR() ([]byte, error) }); ok {
+			_, _ = m.MarshalCBOR()
+		}
+		if m, ok := v.(json.Marshaler); ok {
+			_, _ = m.MarshalJSON()
+		}
 	default:
 		_, _ = encoding.SerializeStructToCBOR(hem, v)
 		_, _ = encoding.SerializeStructToJSON(v)
